@@ -42,6 +42,58 @@ CHECKS = {
              "free() not raising, get_free() accounting, free-list equality. Exploration over histories.",
         note="Growth amount is taken from the implementation; zero-size requests judged only when a free "
              "interval exists.", ref="2 C12"),
+    "C02": dict(
+        technique="runtime monitoring: differential execution of the emitted C accessors (real ContextCpu/cffi call path, plus stand-alone clang ASan/UBSan build) against the Python view of the same object",
+        text="Held on the observed calls: every generated get/getp/len/typeid/member function of every access path of each generated type, called for all sampled in-range index tuples on objects never placed at offset 0, returned the value, element address, length and member identity the Python accessors report.",
+        note="The symbolic 'for all indices and all header contents at once' clause is decided only observationally (the objects actually built). Paths through a null reference are outside the domain.", ref="2 C02"),
+    "C07": dict(
+        technique="compiler sanitizers (clang-14 ASan+UBSan, -fno-sanitize-recover=all) on a stand-alone build of the emitted accessors over an exactly-sized malloc image, plus runtime monitoring of setters (whole-object re-read and byte diff after each call)",
+        text="Held on the observed calls: each sampled C setter changed exactly the addressed leaf's bytes to the passed value (whole-object model re-read + buffer byte diff); the sanitizer builds executed every accessor with zero ASan/UBSan report blocks and the expected outputs.",
+        note="ASan sees only accesses leaving the malloc'd image; intra-image errors are caught by the diff/compare oracle. cffi builds use -fwrapv, so signed overflow is judged in the stand-alone build only.", ref="2 C07"),
+    "C08": dict(
+        technique="runtime monitoring: history checker against an object-graph reference model (aliasing, nulls, live-region oracle from the shadow allocator) after every step",
+        text="Held on the observed histories over Ref/UnionRef fields and array items: binding to a same-buffer object aliases it (offset equality, writes visible both ways), binding plain data or a foreign object creates an independent live object in the holder's buffer, null reads None / member index -1, every non-null reference resolves to a live object of the recorded member type, re-checked after forced growth.",
+        note="Trusted: the Follower shadow's notion of live regions (offsets taken from the allocation log).", ref="2 C08"),
+    "C09": dict(
+        technique="runtime monitoring: reference-model comparison + allocation/write log extent disjointness + write-isolation probes on copies",
+        text="Held on the observed copies (same buffer / other buffer / other context): copy equals the model, its writes lie in allocations made during the copy and away from the original, references resolve to live objects of the copy's buffer (same referent when shared, duplicate otherwise), writes to either side never show through the other.",
+        note="Writes through a shared reference in the shared-buffer case are visible on both sides by design.", ref="2 C09"),
+    "C10": dict(
+        technique="runtime monitoring: history checker against a whole-object value model after every assignment (handles, fresh and stale views, growth interleaved)",
+        text="Held on the observed assignment histories: after every step the whole root object and a neighbour re-read equal to the model with exactly the assigned element replaced; sizes, shapes and references unchanged.",
+        note="Equal size = same shape for arrays, utf-8 length <= capacity at creation for strings.", ref="2 C10"),
+    "C11": dict(
+        technique="runtime monitoring: fault-injection workload (misuse attempts) with before/after observation of every live object and live byte extent",
+        text="Held on the observed misuse attempts of every class: an exception was raised and all previously live objects re-read equal to their model and all previously live bytes were unchanged.",
+        note="Negative indices are 'out of range' only on static-item arrays.", ref="2 C11"),
+    "C14": dict(
+        technique="runtime monitoring: emission-order oracle over sort_classes/assembled source for generated dependency graphs, plus real cffi+gcc builds",
+        text="Held on the observed graphs: each class of the dependency closure emitted exactly once after its dependencies, each typedef guard once before first use, sampled real builds compile and run, _depends_on cycles raise.",
+        note="Dependency closure is computed from the generator's own graph, not from the library.", ref="2 C14"),
+    "C15": dict(
+        technique="differential execution of emitted programs across target specialisations (cpu/opencl/cuda compiled on the host, clang OpenCL C front end for address-space checking, ASan/UBSan), sources obtained through the real GPU contexts via fake-device shims",
+        text="Held on the observed types: identical accessor outputs across cpu_serial / opencl / cuda specialisations and the Python view; accessor bodies token-identical after deleting target qualifiers; the OpenCL form accepted under CL1.2 (any pointer losing __global is a hard error) and CL2.0; keyword-free forms accepted by the host compiler.",
+        note="No GPU runtime exists here: vendor-compiler acceptance and device memory models are out of reach.", ref="2 C15"),
+    "C16": dict(
+        technique="runtime monitoring: per-index hit counters, target flag bits and guard zones inside generated vectorised kernels, executed through real ContextCpu and through fake-device shims driving the real launch-geometry code",
+        text="Held on the observed kernels: every vectorised block body ran exactly once per index 0..n-1 (incl. n=0) on cpu_serial, cpu_openmp, opencl and cuda with the contexts' own launch geometry; context-restricted lines and includes active only where named; unannotated text passes through unchanged.",
+        note="What a real CUDA runtime does with a zero-sized grid is not modelled.", ref="2 C16"),
+    "C17": dict(
+        technique="runtime monitoring: echo kernels (arguments returned / dereferenced by the callee) compared with byte-level expectations; call counter for refused calls",
+        text="Held on the observed calls: scalar extremes bit-exact for 10 types, objects arrive as pointer to their first byte at any offset and after growth, numpy / xobject numeric arrays as pointer to first element, malformed calls refused before the C function ran.",
+        note="Values offered for scalar arguments are representable in the declared C type.", ref="2 C17"),
+    "C18": dict(
+        technique="runtime monitoring: history checker comparing Python attribute == _xobject field == model for every tracked hybrid object after every step",
+        text="Held on the observed histories over generated hybrid families: attributes mirror buffer data (also renamed), non-reference assignment stores an independent copy, reference assignment shares and is refused across buffers with nothing changed, copy independent, move relocates all nested dressed parts, forbidden moves raise.",
+        note="A reference-to-hybrid attribute may come back bare after copy(); it is read through whichever representation it has.", ref="2 C18"),
+    "C19": dict(
+        technique="runtime monitoring: reference-model comparison of objects rebuilt from their dictionary / JSON forms (incl. real JSON text), with default-elision and omitted-key monitors",
+        text="Held on the observed round trips: from_dict(to_dict()) equals the model field by field (Python and xobject views, renamed, nested, referenced), default-valued non-renamed numeric fields are omitted and omitted keys come back as defaults; T(x._to_json()) directly and through JSON text reproduces reference-free structs / 1-D arrays.",
+        note="Elision asserted only for non-renamed numeric scalar / static array fields.", ref="2 C19"),
+    "C20": dict(
+        technique="runtime monitoring: reference-model comparison of unpickled objects, buffer-sharing relation check, write-isolation probes and an allocator walk with stamped regions on the unpickled buffers",
+        text="Held on the observed groups: every unpickled object equals its model and is writable, independent of the original's buffer; sharing relation preserved exactly; unpickled buffers keep capacity and free list and serve allocate/free/construct with disjoint, aligned, intact regions.",
+        note="Classes are registered in a real module so that pickle can import them.", ref="2 C20"),
 }
 NOT_YET = {}
 
